@@ -47,6 +47,11 @@ LEVEL_TEXT += (
     "which entity kinds carry DOFs is decided by the dimension of the "
     "cells: configurations with element.dim different from it (vector "
     "elements) added.")
+LEVEL_TEXT += (
+    " Added in the second hunting round (DESIGN.md 9.6): "
+    "the single DOF of a shared edge / facet sits at the entity's "
+    "centroid; Element.condensed shifts doflocs, dofnames and the "
+    "components like its gbasis.")
 LEVEL_NOTE = (
     "Trusted: numpy arange/reshape/vstack semantics. Not decided: "
     "properties of concrete meshes (uniqueness of entities is C11), "
